@@ -45,6 +45,14 @@ streams    NEW | NEWRESOLVE -> [CONTROLLER_WAIT] -> (REMAP 0 .. SOURCE=CACHE)* -
            with NEW / NEWRESOLVE only, SOURCE with REMAP only, REASON / REMOTE_REASON with
            DETACHED / FAILED / CLOSED only.  The Target of every event is the stream's current
            (possibly re-mapped) address.
+re-attach  when a controller re-attaches a stream that is already on a circuit (ATTACHSTREAM in
+           CONNECT_WAIT / RESOLVE_WAIT), Tor takes it off that circuit WITHOUT a DETACHED event
+           (handle_control_attachstream: circuit_detach_stream + state CONTROLLER_WAIT) and, if the
+           address is re-mapped, reports ``REMAP 0 addr SOURCE=CACHE`` before the SENTCONNECT for
+           the new circuit.  Action ``unattach_remap``: an attached, not yet succeeded stream is
+           reported with circuit 0 on a REMAP line; it is then unattached for every observer and is
+           attached again by a later ``attach``.  (The variant without any line between
+           ``SENTCONNECT 5`` and ``SENTCONNECT 7`` is not generated: DESIGN C07 leniency.)
 pairs      a connect stream that fails before its SOCKS request was answered is reported twice by
            Tor: ``STREAM n FAILED ..`` (from connection_ap_handshake_socks_reply) and, when the
            connection is finally closed, ``STREAM n CLOSED ..`` with the same reason
@@ -567,6 +575,9 @@ class TorSim(object):
         if order == "ack-first":
             obj.marked = True
             self.pending.append(act)
+            if pol.get("ack_hold"):          # acknowledged late, reported gone even later
+                self.held_acks.append((line, 250, OK[1]))
+                return None
             return OK
         evs = self.apply(act)        # event is queued before the acknowledgement
         del evs
@@ -605,6 +616,9 @@ class TorSim(object):
         s = self.streams.get(sid)
         if s is None:
             return (552, [("end", 'Unknown stream "%d"' % sid)])
+        if not 0 <= reason <= 255:          # Tor parses the reason as one byte
+            self._count("closestream_refused_reason")
+            return (552, [("end", "Unrecognized reason '%s'" % args[1])])
         if s.marked:
             return OK
         pol = self._policy("stream", sid)
@@ -735,6 +749,8 @@ class TorSim(object):
         self._need(not s.marked and not s.circ_dead, "marked or on dead circuit")
         if a == "cwait":
             self._need(not s.circ and s.status in ("NEW", "NEWRESOLVE", "DETACHED", "REMAP"))
+        elif a == "unattach_remap":
+            self._need(s.circ and not s.succeeded and s.status in ("SENTCONNECT", "SENTRESOLVE", "REMAP"))
         elif a == "remap":
             self._need(not s.succeeded)
             if s.circ:
@@ -869,6 +885,8 @@ class TorSim(object):
             s.last_keywords = kwd
             if status == "DETACHED":
                 s.client_attached = False
+            elif status not in ("CLOSED", "FAILED") and not circ:
+                s.client_attached = False      # Tor says: on no circuit
             elif status not in ("CLOSED", "FAILED") and circ and not s.client_attached:
                 # first line that tells the controller which circuit the stream is on
                 s.client_attached = True
@@ -917,6 +935,21 @@ class TorSim(object):
             s.reported_remap = act["addr"]
         if ev.attach:
             ev.expect.append(("stream_attach", ev.attach))
+        return [ev]
+
+    def _do_unattach_remap(self, act):
+        """another controller re-attaches the stream: off its circuit, no DETACHED, REMAP 0"""
+        s = self.streams[act["id"]]
+        s.was_detached = True
+        s.detached_from_uid = s.circ_uid
+        s.circ = 0
+        s.circ_uid = None
+        s.tor_may_attach = True
+        s.cur_host = act["addr"]
+        self._count("unattached_by_remap_0")
+        ev = self._stream_event(s, "REMAP", 0, [("SOURCE", "CACHE")])
+        if self.reporting:
+            s.reported_remap = act["addr"]
         return [ev]
 
     def _do_attach(self, act):
@@ -1120,6 +1153,8 @@ class TorSim(object):
                 if not s.succeeded:
                     if s.status in ("SENTCONNECT", "SENTRESOLVE") and rnd.random() < 0.35:
                         out.append((2.0, {"a": "remap", "id": s.id, "addr": rnd.choice(REMAP_ADDRS)}))
+                    if s.status in ("SENTCONNECT", "SENTRESOLVE", "REMAP") and rnd.random() < 0.5:
+                        out.append((0.7, {"a": "unattach_remap", "id": s.id, "addr": rnd.choice(REMAP_ADDRS)}))
                     if s.kind == "connect":
                         out.append((4.0, {"a": "succeed", "id": s.id}))
                     out.append((1.3, {"a": "detach", "id": s.id, "reason": rnd.choice(["TIMEOUT", "END", "EXITPOLICY", "RESOLVEFAILED"]),
@@ -1171,7 +1206,7 @@ class TorSim(object):
                 for w, a in self.candidates(rnd):
                     if a["a"] == "snew" and len(mine) < 3:
                         cands.append((w, a))
-                    elif a["a"] in ("remap", "attach", "succeed", "detach", "cwait", "sclose", "sfail", "zclose") \
+                    elif a["a"] in ("remap", "unattach_remap", "attach", "succeed", "detach", "cwait", "sclose", "sfail", "zclose") \
                             and a["id"] in mine and self.legal(a):
                         cands.append((w * (0.3 if a["a"] in ("sclose", "sfail") else 1.0), a))
                 if not cands:
